@@ -167,7 +167,7 @@ pub trait Scenario: Sync {
         true
     }
     fn poll_cap(&self) -> u64 {
-        2_000_000
+        500_000
     }
 }
 
@@ -737,7 +737,13 @@ pub fn install_wire_hooks(
             policy(&rec)
         };
         rec.verdict = v;
-        WIRE.with(|w| w.borrow_mut().push(rec));
+        // a runaway execution (e.g. a forwarding loop that never ends) must not eat the memory
+        WIRE.with(|w| {
+            let mut w = w.borrow_mut();
+            if w.len() < 200_000 {
+                w.push(rec);
+            }
+        });
         v
     })));
     elvis_core::verif::set_tap_hook(Some(Box::new(|e| {
@@ -751,7 +757,12 @@ pub fn install_wire_hooks(
             protocol: e.protocol,
             bytes: e.message.to_vec(),
         };
-        TAPS.with(|w| w.borrow_mut().push(rec));
+        TAPS.with(|w| {
+            let mut w = w.borrow_mut();
+            if w.len() < 200_000 {
+                w.push(rec);
+            }
+        });
     })));
 }
 
